@@ -32,8 +32,8 @@ type builtTrie struct {
 
 func buildTrie(t *rapid.T, secure bool, scheme string, minPool, maxPool int) *builtTrie {
 	b := &builtTrie{secure: secure, scheme: scheme, content: map[string][]byte{}}
-	if fuzzMode && maxPool > 8 {
-		maxPool = 8
+	if fuzzMode && maxPool > 5 {
+		maxPool = 5
 	}
 	b.pool = genKeyPool(t, scheme, rapid.IntRange(minPool, maxPool).Draw(t, "poolSize"))
 	disk, tdb := newTrieDB()
@@ -125,7 +125,7 @@ func (b *builtTrie) probes(t *rapid.T) []probe {
 	}
 	keys := sortedKVs(b.content)
 	for i, e := range keys {
-		if i >= 12 || (fuzzMode && i >= 3) {
+		if i >= 12 || (fuzzMode && i >= 2) {
 			break
 		}
 		k := e.k
@@ -219,6 +219,9 @@ func propProof(t *rapid.T) {
 	// one and two drawn ones
 	fullSweep := map[int]bool{}
 	for _, wantPresent := range []bool{true, false} {
+		if fuzzMode && !wantPresent {
+			break // one exhaustive sweep per fuzz input (see fuzz_test.go)
+		}
 		for i, p := range probes {
 			if (b.content[string(p.key)] != nil) == wantPresent {
 				fullSweep[i] = true
